@@ -285,6 +285,18 @@ class CFG(object):
     def branch_nodes(self, test, pol):
         return [n.id for n in self.nodes if n.kind == 'branch' and n.test is test and n.pol is pol]
 
+    def branches(self):
+        """[(node id, test with leading ``not``s stripped, effective polarity)] for every branch node."""
+        out = []
+        for n in self.nodes:
+            if n.kind != 'branch':
+                continue
+            t, p = n.test, n.pol
+            while isinstance(t, ast.UnaryOp) and isinstance(t.op, ast.Not):
+                t, p = t.operand, not p
+            out.append((n.id, t, p))
+        return out
+
     def handler_nodes(self, handler):
         return [n.id for n in self.nodes if n.kind == 'handler' and n.handler is handler]
 
